@@ -129,6 +129,10 @@ def stepLineCore (d : D) (line : String) : D × String :=
   -- killed between mkdir and rename): an empty directory is not an object, the state is what it was
   | ["emptydir", _] => (d, s!"rc=ok {showState d.tab d.st}")
   | ["delete", p] => let (t, p) := d.tab.intern p; exec { d with tab := t } (.delete p)
+  -- the user writes the symbolic link at the path again with ANOTHER SPELLING of the same target (relative, through a second
+  -- name of the repository directory, through an intermediate link, with a `/./` component): the model's `Entry.sym a` is what
+  -- the link resolves to, so the state is what it was (XvcRepo/Props/C04Resolve.lean)
+  | "relink" :: _ => (d, s!"rc=ok {showState d.tab d.st}")
   | "track" :: m :: t :: nc :: f :: ps =>
     let (tb, ps) := d.tab.interns ps
     exec { d with tab := tb } (.track ps { method := parseMethod m, tob := parseTob t, noCommit := b01 nc, force := b01 f })
